@@ -9,9 +9,15 @@
 //
 //	race <k> -> <during 0|1> <after 0|1> <active: id=name=value,…> <alert: name=value>
 //	quiet <k> -> <after> <active> <alert>           (the same question after expiring the racing silence)
+//	mergerace <k> <n> -> <id:upd,state of the raced id as stored afterwards> <stored0 upd> <batch upd> <expire upd>
+//
+// mergerace: the store holds n active silences; a Merge of a full-state batch with a NEWER version of every one
+// of them (milliseconds of work) races an API Expire of one of them.  Whatever the interleaving, the id ends up
+// with the newest of the three versions (the expiry): merging never replaces a newer version by an older one.
 package mutesrace
 
 import (
+	"bytes"
 	"context"
 	"fmt"
 	"log/slog"
@@ -25,6 +31,7 @@ import (
 
 	"github.com/prometheus/client_golang/prometheus"
 	"github.com/prometheus/common/model"
+	"google.golang.org/protobuf/encoding/protodelim"
 	"google.golang.org/protobuf/types/known/timestamppb"
 
 	"github.com/prometheus/alertmanager/eventrecorder"
@@ -128,6 +135,86 @@ func (w *world) exec(line string) string {
 		wg.Wait()
 		w.cur = n.Id
 		return w.report(fmt.Sprintf("%d ", b2i(during)))
+	case "mergerace":
+		k, _ := strconv.Atoi(t[1])
+		n, _ := strconv.Atoi(t[2])
+		ctx := context.Background()
+		// a fresh store per round: n active silences
+		st, err := silence.New(silence.Options{Retention: time.Hour, Metrics: prometheus.NewRegistry()})
+		if err != nil {
+			panic(err)
+		}
+		now := time.Now()
+		ids := make([]string, n)
+		for i := 0; i < n; i++ {
+			p := w.mkSil(now, now.Add(time.Hour), fmt.Sprintf("m%d", i))
+			if err := st.Set(ctx, p); err != nil {
+				panic(err)
+			}
+			ids[i] = p.Id
+		}
+		// the batch: the full state as another instance would send it, every silence edited (newer update time, new comment)
+		b, err := st.MarshalBinary()
+		if err != nil {
+			panic(err)
+		}
+		var buf bytes.Buffer
+		br := bytes.NewReader(b)
+		victim := ids[(k*7)%n]
+		var stored0, batchUpd int64
+		for br.Len() > 0 {
+			var m pb.MeshSilence
+			if err := protodelim.UnmarshalFrom(br, &m); err != nil {
+				panic(err)
+			}
+			if m.Silence.Id == victim {
+				stored0 = m.Silence.UpdatedAt.AsTime().UnixNano()
+			}
+			m.Silence.UpdatedAt = timestamppb.New(m.Silence.UpdatedAt.AsTime().Add(time.Microsecond))
+			m.Silence.Comment = "edited elsewhere"
+			if m.Silence.Id == victim {
+				batchUpd = m.Silence.UpdatedAt.AsTime().UnixNano()
+			}
+			if _, err := protodelim.MarshalTo(&buf, &m); err != nil {
+				panic(err)
+			}
+		}
+		var wg sync.WaitGroup
+		started := make(chan struct{})
+		wg.Add(2)
+		go func() {
+			defer wg.Done()
+			close(started)
+			if err := st.Merge(buf.Bytes()); err != nil {
+				panic(err)
+			}
+		}()
+		go func() {
+			defer wg.Done()
+			<-started
+			if d := time.Duration(k%4) * 40 * time.Microsecond; d > 0 {
+				time.Sleep(d)
+			}
+			if err := st.Expire(ctx, victim); err != nil {
+				panic(err)
+			}
+		}()
+		wg.Wait()
+		sils, _, err := st.Query(ctx, silence.QIDs(victim))
+		if err != nil || len(sils) != 1 {
+			return "missing 0 0 0"
+		}
+		v := sils[0]
+		state := "active"
+		if !v.EndsAt.AsTime().After(time.Now()) {
+			state = "expired"
+		}
+		// the expiry's update time: Expire stamps the wall clock, later than both other versions
+		expUpd := v.UpdatedAt.AsTime().UnixNano()
+		if state != "expired" {
+			expUpd = time.Now().UnixNano()
+		}
+		return fmt.Sprintf("%d,%s %d %d %d", v.UpdatedAt.AsTime().UnixNano()-stored0, state, 0, batchUpd-stored0, expUpd-stored0)
 	case "quiet":
 		if w.cur != "" {
 			if err := w.s.Expire(context.Background(), w.cur); err != nil {
@@ -179,6 +266,9 @@ func runCase(tr *hx.Trace, id int, r *rand.Rand, script []string) {
 	for k := 0; k < rounds; k++ {
 		do(fmt.Sprintf("race %d", k))
 		do(fmt.Sprintf("quiet %d", k))
+	}
+	for k := 0; k < 3; k++ {
+		do(fmt.Sprintf("mergerace %d %d", k+id, []int{300, 1500}[r.IntN(2)]))
 	}
 }
 
